@@ -171,6 +171,30 @@ def extra(res, lean, drv, tier, rnd):
         res.failures.append({'kind': 'kdiff', 'detail': 'cannot build the route-level driver: ' + err}); return
     lines = [l for l in c09.gen(tier, rnd) if l.startswith('route')]
     core.kdiff(res, lean, mdrv, lines, oracle=c09.oracle, classify=lambda l, o: ('route',) + tuple(l.split()[1:]) + (o[:3],), tag='route:', retry=2)
+    # what the handler is GIVEN: Rest::Request::param / hasParam / splat / splatAt on routes whose parameter names share a prefix
+    plines = []
+    toks = ['1', '2', 'a', 'b', 'joe', 'x', 'idx', 'id', ':id', 'u', 'w', '7', 'zz']
+    for pth in ['/u/1/2/a/b', '/w/joe', '//u//7/8/s/t/', '/u/1/2', '/w/x/y', '/u/idx/id/:id/:idx', '/w/:name', '/u/a/a/a/a', '/w/', '/u/1/2/3/4/5']:
+        plines.append('routep ' + pth.encode().hex())
+    for _ in range(20 if tier == 'quick' else 300):
+        k = rnd.choice([2, 5, 5, 5, 3, 6]); first = rnd.choice(['u', 'u', 'w', 'w', 'v'])
+        plines.append('routep ' + ('/' + '/'.join([first] + [rnd.choice(toks) for _ in range(k - 1)]) + rnd.choice(['', '/'])).encode().hex())
+    core.kdiff(res, lean, mdrv, plines, oracle=oracle_params, classify=lambda l, o: ('routep', l.split()[1], o[:3]), tag='routep:', retry=2)
+
+def oracle_params(ln, out):
+    """the bindings the handler reads through the Request accessors are the path segments at the positions of the named parameters"""
+    if any(x in out for x in ('ASAN', 'UBSAN', 'HANG', 'CRASH', 'TERMINATE', 'MISSING', 'bad-op', 'connect-failed')): return ('crash', 'implementation aborted/hung: ' + out[:120])
+    segs = [x for x in bytes.fromhex(ln.split()[1]).decode('latin-1').split('/') if x]
+    body = bytes.fromhex(out.split('body=')[1].split()[0]).decode('latin-1') if 'body=' in out and out.split('body=')[1][:1] != '-' else ''
+    if len(segs) == 5 and segs[0] == 'u':
+        exp = 'idx=%s id=%s hid=1 hi=0 hidx=1 n=2 s0=%s s1=%s' % (segs[1], segs[2], segs[3], segs[4])
+    elif len(segs) == 2 and segs[0] == 'w':
+        exp = 'name=%s hn=0 hname=1' % segs[1]
+    else:
+        return None if out.startswith('404') else ('wrong-handler', 'a path no route matches was answered ' + out[:60])
+    if not out.startswith('200') or body != exp:
+        return ('bindings', 'path %r: the handler read [%s] through the Request accessors, the route prescribes [%s]' % ('/' + '/'.join(segs), body, exp))
+    return None
 
 def run(tier):
     return core.standard_run(PROP, tier, MODULES, THEOREMS, gen, oracle, classify, RULE, ASSUME, extra=extra, unspecified=unspecified)
